@@ -226,12 +226,17 @@ def _op_json(o):
 # --------------------------------------------------------------------------- Klong level
 
 def klong_values(rng):
-    vals = [0, -3, 17, 2.5, "", "abc", 'say "hi"', [1, 2, 3], [1.5, 2.5], [[1, 2], [3, 4]],
-            [1, [2, "x"]], [], {"a": 1}, {"k": "v", "n": 2}, {}]
+    # ('y', name) = symbol, ('c', ch) = character: kinds that a str-based store could confuse with strings
+    vals = [0, -3, 17, 2.5, 2.0, "", "abc", 'say "hi"', [1, 2, 3], [1.5, 2.5], [[1, 2], [3, 4]],
+            [1, [2, "x"]], [], {"a": 1}, {"k": "v", "n": 2}, {},
+            ('y', "foo"), ('c', "x"), ('c', " "), "foo", "x", [('y', "a"), ('c', "b"), "c"],
+            {"s": ('y', "foo"), "c": ('c', "x")}, {('y', "k"): 1}, [('c', "a"), ('c', "b")]]
     return rng.choice(vals)
 
 
 def _klit(v):
+    if isinstance(v, tuple):
+        return (":" if v[0] == 'y' else "0c") + v[1]
     if isinstance(v, dict):
         return ":{" + " ".join(f"[{_klit(k)} {_klit(x)}]" for k, x in v.items()) + "}"
     if isinstance(v, str):
@@ -246,18 +251,24 @@ def canon(v):
     import klongpy.core as core
     if v is core.KLONG_UNDEFINED or type(v).__name__ == "KGUndefined":
         return "U"
+    if isinstance(v, tuple) and len(v) == 2 and v[0] in ('y', 'c', 'r') and not isinstance(v[1], (list, tuple, dict)):
+        return v
+    if core.is_char(v):
+        return ('c', str(v))
+    if isinstance(v, KGSym):
+        return ('y', str(v))
     if isinstance(v, np.ndarray):
         return [canon(x) for x in v.tolist()] if v.dtype != object else [canon(x) for x in v]
     if isinstance(v, (list, tuple)):
         return [canon(x) for x in v]
     if isinstance(v, dict):
-        return {"dict": sorted((canon(k), canon(x)) for k, x in v.items())}
+        return {"dict": sorted(((canon(k), canon(x)) for k, x in v.items()), key=repr)}
     if isinstance(v, (bool, np.bool_)):
         return int(v)
     if isinstance(v, (np.integer,)):
         return int(v)
-    if isinstance(v, (np.floating,)):
-        return float(v)
+    if isinstance(v, (float, np.floating)):
+        return ('r', float(v))          # integer / real kind is part of the value
     return v
 
 
@@ -282,7 +293,8 @@ def run_klong_kvs(ctx, drv, nseq, length):
                 k = ctx.rng.choice(keys)
                 if r < 0.45:
                     v = klong_values(ctx.rng)
-                    text = f'kvs,"{k}",,{_klit(v)}'
+                    # a dictionary literal is not evaluated inside a list literal; `,0cx` is the string "x"
+                    text = f'kvs,"{k}",,{_klit(v)}' if isinstance(v, dict) else f'kvs,["{k}" {_klit(v)}]'
                     trace.append(text)
                     case = dict(kind="klong-kvs", max=maxmem, program=list(trace))
                     before = set(store.cache.file_futures)
